@@ -434,6 +434,7 @@ type execState struct {
 	res      atp.ExecutionResult
 	joined   bool
 	panicked any
+	g        int64 // goroutine that runs the call
 }
 
 var hits [4096]atomic.Int64
@@ -700,6 +701,7 @@ func runJob(job atpcs.Job) (res atpcs.JobResult) {
 						rec.add(atpcs.Ev{K: "ret", Fn: "Execute", Run: x.run, Err: true, ErrS: fmt.Sprint("panic: ", p)})
 					}
 				}()
+				x.g = goid()
 				rec.add(atpcs.Ev{K: "call", Fn: "Execute", Run: x.run, To: x.to != nil, From: x.from != nil})
 				close(started)
 				x.res = cli.Execute(schema.Input{RunID: x.run, ID: "s", InputData: map[string]any{"name": "n"}}, toCh, fromCh)
@@ -855,7 +857,15 @@ func runJob(job atpcs.Job) (res atpcs.JobResult) {
 			}
 		}
 	}
-	// direct oracle: success only from an intact work-done of the same run
+	// direct oracle: a success needs a frame that strictly decodes (outer frame and payload, unknown
+	// fields rejected) as a work-done message of the same run - or, for an Execute that took the
+	// ATP v1 path, as a bare v1 work-done message
+	viaV1 := map[int64]bool{}
+	for _, e := range evs {
+		if e.K == "dec" && e.Fn == "getResultV1" {
+			viaV1[e.G] = true
+		}
+	}
 	intact := map[string]bool{}
 	ctx := "loop"
 	for i, it := range items {
@@ -886,8 +896,8 @@ func runJob(job atpcs.Job) (res atpcs.JobResult) {
 			continue
 		}
 		key := atp.VerifPayloadKey(x.res.OutputID, x.res.OutputData)
-		if !intact[x.run+"\x00"+key] && !intact["\x00v1\x00"+key] {
-			problem(prop, "Execute reported success without an intact work-done message for its run: "+key, x.run)
+		if !intact[x.run+"\x00"+key] && !(viaV1[x.g] && intact["\x00v1\x00"+key]) {
+			problem(prop, "Execute reported success without a frame that strictly decodes as a work-done message of its run: "+key, x.run)
 			setVerdict("fabricated")
 		}
 	}
